@@ -6,8 +6,10 @@
 //                sqfvm_create_instance* entry points of src/export/sqfvm.cpp). A program without a vm
 //                statement gets a "full" VM in front of its first statement.
 //     k = "sqf": preprocess + parse + run the text as one script (compile, add_context, execute start)
-//   alone : a fresh VM runs P statement by statement (every case runs in its own forked child, main.cpp)
-//   after : one VM runs all of Q and is destroyed (kept alive with "keep"), then a FRESH VM runs P
+//   alone : a fresh VM runs P statement by statement (every case runs in its own forked child, main.cpp),
+//           on a new thread (= a new allocator arena: the heap layout the VM sees does not depend on what
+//           the driver process allocated before the case)
+//   after : on one new thread: one VM runs all of Q and is destroyed (kept alive with "keep"), then a FRESH VM runs P
 //   beside: two VMs on two threads. A token is passed along "schedule": a thread may begin its next
 //           step only when the schedule names it and keeps the token until it asks for the next step, so
 //           steps are atomic and their order is exactly the schedule. Step = one statement; with "fine"
@@ -137,16 +139,25 @@ static void cmd_iso(const J& c)
     P.stmts = stmts_of(c, "P");
     Q.stmts = stmts_of(c, "Q");
     auto setting = c.str("setting", "alone");
+    // The programs never run on the driver's main thread: a new thread gets a new allocator arena (no other
+    // thread exists in the forked child), so where the VM's objects end up relative to each other does not
+    // depend on what the driver process parsed and freed before this case - only on what runs in the case.
     if (setting == "alone")
     {
-        for (size_t i = 0; i < P.stmts.size(); i++) { run_stmt(P, i); }
+        std::thread t([&] { for (size_t i = 0; i < P.stmts.size(); i++) { run_stmt(P, i); } });
+        t.join();
         emit_out(P);
     }
     else if (setting == "after")
     {
-        for (size_t i = 0; i < Q.stmts.size(); i++) { run_stmt(Q, i); }
-        if (!c.boolean("keep", false)) { Q.v.rt.reset(); Q.v.logger.reset(); Q.created = false; }
-        for (size_t i = 0; i < P.stmts.size(); i++) { run_stmt(P, i); }
+        // one embedder thread: Q's instance first, then - in the same thread, hence the same arena - P's
+        bool keep = c.boolean("keep", false);
+        std::thread t([&] {
+            for (size_t i = 0; i < Q.stmts.size(); i++) { run_stmt(Q, i); }
+            if (!keep) { Q.v.rt.reset(); Q.v.logger.reset(); Q.created = false; }
+            for (size_t i = 0; i < P.stmts.size(); i++) { run_stmt(P, i); }
+        });
+        t.join();
         emit_out(P);
         emit_out(Q);
     }
